@@ -22,6 +22,16 @@ pub struct Cfg {
     pub tail: u32,
     pub ans: bool,
     pub jbrd_first: bool,
+    /// scan script: 0 one interleaved baseline scan, 1 one sequential scan per component, 2 sequential
+    /// [Y] [Cb Cr], 3 progressive spectral selection, 4 progressive with DC refinement and split bands,
+    /// 5 progressive with successive approximation of DC and AC (libjpeg's default script shape)
+    pub script: u32,
+    /// end-of-band runs of progressive AC scans: 0 maximal, 1 flushed before every block, 2 before every third
+    pub eob_policy: u32,
+    /// component identifiers: 0 standard (1,2,3), 1 zero-based explicit ids
+    pub comp_ids: u32,
+    /// chroma subsampling: 0 4:4:4, 1 4:2:0, 2 4:2:2, 3 4:4:0
+    pub sampling: u32,
 }
 
 const SIZES: &[(usize, usize)] = &[(16, 8), (8, 8), (16, 16), (17, 9), (33, 8), (32, 16), (1, 1), (8, 24)];
@@ -35,22 +45,31 @@ pub fn cfg_from(t: &mut Tape) -> Cfg {
         restart: t.choose(4),
         quant: t.choose(4),
         huff: t.choose(3),
-        segments: t.choose(7),
+        segments: t.choose(12),
         pad_bit: [1, 0][t.choose(2) as usize],
         tail: t.choose(3),
         ans: t.flag(),
         jbrd_first: !t.flag(),
+        script: t.choose(6),
+        eob_policy: t.choose(3),
+        comp_ids: t.choose(2),
+        sampling: t.choose(4),
     }
 }
 
 pub fn spec_of(c: &Cfg, seed: u64) -> JpegSpec {
     let (w, h) = c.size;
-    let (bw, bh) = ((w + 7) / 8, (h + 7) / 8);
+    // sampling factors (luma; chroma is 1x1): the grids are padded to whole MCUs
+    let (lh, lv) = if c.ncomp == 1 { (1, 1) } else { [(1usize, 1usize), (2, 2), (2, 1), (1, 2)][c.sampling as usize] };
+    let samp: Vec<(usize, usize)> = if (lh, lv) == (1, 1) { vec![] } else { vec![(lh, lv), (1, 1), (1, 1)] };
+    let (mw, mh) = ((w + 8 * lh - 1) / (8 * lh), (h + 8 * lv - 1) / (8 * lv));
+    let (bw, bh) = (mw * lh, mh * lv);
     let nb = bw * bh;
     let mut rng = Lcg(seed ^ 0xc17);
-    let mut coef: Vec<Vec<[i32; 64]>> = vec![vec![[0; 64]; nb]; c.ncomp];
+    let grid_len = |comp: usize| if comp == 0 { nb } else { mw * mh };
+    let mut coef: Vec<Vec<[i32; 64]>> = (0..c.ncomp).map(|comp| vec![[0; 64]; grid_len(comp)]).collect();
     for comp in 0..c.ncomp {
-        for b in 0..nb {
+        for b in 0..grid_len(comp) {
             let blk = &mut coef[comp][b];
             blk[0] = ((b * 37 + comp * 101) % 400) as i32 - 200;
             match c.pattern {
@@ -134,6 +153,9 @@ pub fn spec_of(c: &Cfg, seed: u64) -> JpegSpec {
                     pred.iter_mut().for_each(|p| *p = 0);
                 }
                 for comp in 0..c.ncomp {
+                    if mcu >= coef[comp].len() {
+                        continue; // subsampled: these tables are rebuilt from the scan tokens below
+                    }
                     let blk = &coef[comp][mcu];
                     let d = blk[0] - pred[comp];
                     pred[comp] = blk[0];
@@ -177,6 +199,23 @@ pub fn spec_of(c: &Cfg, seed: u64) -> JpegSpec {
             layout.push(Segment::App(0xee, b"Adobe\0d\0\0\0\0\0\x01".to_vec()));
         }
         5 => layout.push(Segment::App(0xe5, vec![])),
+        7 => layout.push(Segment::Icc(icc_profile())),
+        8 => {
+            // the profile split over three APP2 chunks, after a JFIF header
+            let p = icc_profile();
+            layout.push(Segment::App(0xe0, jfif.clone()));
+            layout.push(Segment::Icc(p[..100].to_vec()));
+            layout.push(Segment::Icc(p[100..101].to_vec()));
+            layout.push(Segment::Icc(p[101..].to_vec()));
+        }
+        9 => layout.push(Segment::Exif(b"II*\0\x08\0\0\0\0\0\0\0\0\0".to_vec())),
+        10 => layout.push(Segment::Xmp(b"<x:xmpmeta xmlns:x=\"adobe:ns:meta/\"/>".to_vec())),
+        11 => {
+            layout.push(Segment::Exif(b"MM\0*\0\0\0\x08\0\0\0\0\0\0".to_vec()));
+            layout.push(Segment::App(0xe1, b"other app1".to_vec()));
+            layout.push(Segment::Xmp(b"<?xpacket?>".to_vec()));
+            layout.push(Segment::Icc(icc_profile()));
+        }
         _ => {
             layout.push(Segment::Com(vec![0xff; 300]));
             layout.push(Segment::Com(b"second".to_vec()));
@@ -204,7 +243,90 @@ pub fn spec_of(c: &Cfg, seed: u64) -> JpegSpec {
     } else {
         vec![]
     };
-    JpegSpec { w, h, ncomp: c.ncomp, quant, comp_q, dc_tables, ac_tables, comp_tbl, coef, restart_interval, layout, pad_bit: c.pad_bit, tail, extra_zrl }
+    // scan script
+    let nc = c.ncomp;
+    let all: Vec<usize> = (0..nc).collect();
+    let sc = |comps: &[usize], ss: u8, se: u8, ah: u8, al: u8| Scan { comps: comps.to_vec(), ss, se, ah, al, flush_before: vec![] };
+    let chroma: Vec<usize> = (1..nc).collect();
+    let mut scans: Vec<Scan> = match c.script {
+        0 if !samp.is_empty() => vec![sc(&all, 0, 63, 0, 0)],
+        0 => vec![],
+        1 => (0..nc).map(|k| sc(&[k], 0, 63, 0, 0)).collect(),
+        2 => {
+            let mut v = vec![sc(&[0], 0, 63, 0, 0)];
+            if nc > 1 {
+                v.push(sc(&chroma, 0, 63, 0, 0));
+            }
+            v
+        }
+        3 => {
+            let mut v = vec![sc(&all, 0, 0, 0, 0)];
+            for k in 0..nc {
+                v.push(sc(&[k], 1, 63, 0, 0));
+            }
+            v
+        }
+        4 => {
+            let mut v = vec![sc(&all, 0, 0, 0, 1), sc(&[0], 1, 5, 0, 0)];
+            for &k in chroma.iter().rev() {
+                v.push(sc(&[k], 1, 63, 0, 0));
+            }
+            v.push(sc(&[0], 6, 63, 0, 0));
+            v.push(sc(&all, 0, 0, 1, 0));
+            v
+        }
+        _ => {
+            let mut v = vec![sc(&all, 0, 0, 0, 1), sc(&[0], 1, 5, 0, 2)];
+            for &k in chroma.iter().rev() {
+                v.push(sc(&[k], 1, 63, 0, 1));
+            }
+            v.push(sc(&[0], 6, 63, 0, 2));
+            v.push(sc(&[0], 1, 63, 2, 1));
+            v.push(sc(&all, 0, 0, 1, 0));
+            for &k in chroma.iter().rev() {
+                v.push(sc(&[k], 1, 63, 1, 0));
+            }
+            v.push(sc(&[0], 1, 63, 1, 0));
+            v
+        }
+    };
+    let progressive = c.script >= 3;
+    for s in scans.iter_mut() {
+        if progressive && s.ss > 0 {
+            let nblocks = grid_len(s.comps[0]);
+            s.flush_before = match c.eob_policy {
+                0 => vec![],
+                1 => (1..nblocks).collect(),
+                _ => (1..nblocks).filter(|b| b % 3 == 0).collect(),
+            };
+        }
+    }
+    if !scans.is_empty() {
+        // one SOS per scan
+        let pos = layout.iter().position(|s| matches!(s, Segment::Sos)).unwrap();
+        for _ in 1..scans.len() {
+            layout.insert(pos, Segment::Sos);
+        }
+    }
+    let comp_ids: Vec<u8> = if c.comp_ids == 1 { (0..nc as u8).collect() } else { vec![] };
+    let extra_zrl = if scans.is_empty() { extra_zrl } else { vec![] };
+    let mut spec = JpegSpec { w, h, ncomp: c.ncomp, quant, comp_q, dc_tables, ac_tables, comp_tbl, coef, restart_interval, layout, pad_bit: c.pad_bit, tail, extra_zrl, scans, progressive, comp_ids, samp };
+    if progressive || (c.huff == 2 && !spec.scans.is_empty()) {
+        spec.rebuild_tables_for_scans();
+    }
+    spec
+}
+
+/// A small well-formed RGB matrix profile (the hand-built one of C18's corpus).
+fn icc_profile() -> Vec<u8> {
+    crate::c18::profiles(0, true).into_iter().find(|p| p.0 == "built-appl").unwrap().1
+}
+
+/// Its encoded form for the codestream.
+fn icc_stream_of(p: &[u8]) -> jxlw::bits::BitWriter {
+    let plan = jxlw::icc::Plan { tags: jxlw::icc::TagMode::Shortcuts, segs: vec![jxlw::icc::Seg::Raw(p.len() - 132 - 11 * 12)] };
+    let enc = jxlw::icc::encode(p, &plan).expect("icc plan");
+    jxlw::icc::write_icc_stream(&enc, &jxlw::entropy::CodeOpts { use_prefix: true, cluster_map: Some((0..41).map(|i| (i % 4) as u8).collect()), cfg: Some(jxlw::entropy::HybridCfg::new(8, 0, 0)), ..Default::default() })
 }
 
 fn status_str(s: JpegReconstructionStatus) -> &'static str {
@@ -266,7 +388,7 @@ fn drive(file: &[u8], cuts: &[usize]) -> Result<(Vec<&'static str>, &'static str
 
 pub fn run(c: &Cfg, seed: u64, cut_stride: usize) -> Result<u64, (String, String, Vec<u8>)> {
     let spec = spec_of(c, seed);
-    let built = guard(|| spec.write_container(c.ans, c.jbrd_first));
+    let built = guard(|| spec.write_container_icc(c.ans, c.jbrd_first, spec.icc_profile().map(|p| icc_stream_of(&p))));
     let (file, jpeg) = match built {
         Ok(x) => x,
         Err(e) => return Err(("writer-failed".into(), format!("jxlw could not write this JPEG: {e}"), vec![])),
